@@ -8,7 +8,6 @@ from kmip.core import enums as E
 from vlib import core
 from vlib import harness as H
 from vlib import fixtures as F
-from vlib import ttlvref as T
 from vlib import c19_wire as W
 from vlib import c19_engine as EN
 from vlib import c05_wire as CW
